@@ -16,6 +16,10 @@ CHECKS = {
    technique="TLA+ spec Defer.tla with environment action 'injected hook panics at its k-th call': TLC enumerates (program, fault point) pairs; replay with the hook armed, then run-state snapshot + battery of specification behaviours in the same interpreter",
    text="Fault enumeration driven by the specification: TLC enumerates every program of the bounded space crossed with every call k at which the injected compiled hook panics (inside interpreted code, inside deferred calls incl. deferred compiled functions, while another panic is handled) with the outcome Go prescribes; each pair is executed on the real interpreter, then the executor bookkeeping (ExecFlags, current frame, debug signal, pending defer) is read through a verif hook and a battery of fault-free specification behaviours is replayed in the same interpreter and compared event by event, including the IsDefer flag and call depth observed at every event.",
    ref="§6 C12", note=TRUST + "; fast.VerifSnapshot (verif tag) reads Run fields without side effects; behaviours with two panics in flight have their own log judged by C07's known finding, their after-state is still checked"),
+ "C13": dict(
+   technique="TLA+ spec Exec.tla (executor polling protocol with the code's constants): TLC safety (bounded response, no new activation) + liveness under fairness; replay of every (loop shape, k) with the hook raising Interp.Interrupt; asynchronous interrupts from another goroutine",
+   text="TLC model-checks the executor's two polling phases (5x14 unrolled statements, then blocks of 15), the flag tests at activation entry and exit and the environment action 'interrupt at the k-th hook call': at most 14 further statements run, no new activation runs a statement, and under weak fairness the interrupt is always serviced; two broken variants are rejected. Every (shape, k) pair of the model is then executed on the real interpreter: the evaluation must end with the interrupt signal after at most the model's bound of further hook calls (counted by the hook itself, never by a timeout), the bookkeeping must be quiescent, the program must still run to completion afterwards and a battery of Defer.tla behaviours must give the specified results; asynchronous delivery from another goroutine at seeded delays covers loops without calls.",
+   ref="§6 C13", note=TRUST + "; one hook call >= one statement (one-sided bound); async runs allow 200000 iterations of slack for store visibility; interrupts during a single long compiled call are out of scope"),
 }
 NA = {
  "C31": "no state or transition to model: the property equates ~150 generated data tables with the linked standard library's symbol universe; deciding it needs regenerate-and-compare, a different technique (DESIGN §7)",
